@@ -441,6 +441,10 @@ class BaseProperty(base.BaseObject):
             return
 
         new_value = self._convert_value_input(new_value)
+        # Any other empty container or iterator is an empty value as well.
+        if not new_value:
+            self._values = []
+            return
 
         old_dtype = self._dtype
         if self._dtype is None:
